@@ -51,7 +51,7 @@ def _enum(tier, shard, nshards):
 
 
 PHASES = [
-    HypPhase("dyadic", _dyadic, dict(quick=6000, thorough=60000)),
+    HypPhase("dyadic", _dyadic, dict(quick=10000, thorough=60000)),
     EnumPhase("grid7", _enum,
               lambda tier: "all ordered pairs of subsets of {0..7} on [0,7] x MRTS in "
                            "{0,1,2,3,4,14} x max_tau in {None,0.5,1,2}, backend "
